@@ -31,6 +31,13 @@ func (keeper Keeper) AddDeposit(ctx context.Context, proposalID uint64, deposito
 		return false, govtypes.ErrInactiveProposal.Wrapf("%d", proposalID)
 	}
 
+	// The gov module account holds the deposits of all open proposals in escrow. A deposit "from" it (only a message of a
+	// passed proposal can carry one) moves no coins but creates a deposit record, and the refund or burn of that record
+	// later fails for lack of funds and halts the end blocker.
+	if depositorAddr.Equals(keeper.authKeeper.GetModuleAddress(govtypes.ModuleName)) {
+		return false, sdkerrors.ErrInvalidAddress.Wrap("the gov module account cannot be a depositor")
+	}
+
 	// Check coins to be deposited match the proposal's deposit params
 	params, err := keeper.Params.Get(ctx)
 	if err != nil {
